@@ -67,6 +67,9 @@ pub static MSYNC_DELAY_US: AtomicU64 = AtomicU64::new(0);
 /// calls on files of `EIO_ROOT` succeed this many more times and fail with EIO from then on, on
 /// whatever thread they are made. -1 = off.
 pub static EIO_AFTER: AtomicI64 = AtomicI64::new(-1);
+/// false: every interposed call fails (EIO); true: only `write` fails (ENOSPC, a full disk:
+/// syncs, truncation, unlink and mapped-memory stores keep working)
+pub static EIO_WRITES_ONLY: AtomicBool = AtomicBool::new(false);
 pub static EIO_FAILED_CALLS: AtomicU64 = AtomicU64::new(0);
 pub static EIO_ROOT: Mutex<Option<PathBuf>> = Mutex::new(None);
 
@@ -78,6 +81,7 @@ pub fn eio_arm(root: &Path, after: i64) {
 
 pub fn eio_disarm() -> u64 {
 	EIO_AFTER.store(-1, Ordering::SeqCst);
+	EIO_WRITES_ONLY.store(false, Ordering::SeqCst);
 	EIO_FAILED_CALLS.load(Ordering::SeqCst)
 }
 
@@ -98,8 +102,20 @@ fn eio_tick() -> bool {
 	fail
 }
 
+/// `write` calls: subject to both modes.
+pub fn eio_write_fd(fd: i32) -> bool {
+	eio_fd_inner(fd)
+}
+
 /// Should this call on `fd` fail? (counts the call when the file belongs to the root)
 pub fn eio_fd(fd: i32) -> bool {
+	if EIO_WRITES_ONLY.load(Ordering::Relaxed) {
+		return false
+	}
+	eio_fd_inner(fd)
+}
+
+fn eio_fd_inner(fd: i32) -> bool {
 	if EIO_AFTER.load(Ordering::Relaxed) < 0 || IN_HOOK.with(|h| h.get()) {
 		return false
 	}
@@ -114,7 +130,7 @@ pub fn eio_fd(fd: i32) -> bool {
 }
 
 pub fn eio_path(path: &Path) -> bool {
-	if EIO_AFTER.load(Ordering::Relaxed) < 0 || IN_HOOK.with(|h| h.get()) {
+	if EIO_WRITES_ONLY.load(Ordering::Relaxed) || EIO_AFTER.load(Ordering::Relaxed) < 0 || IN_HOOK.with(|h| h.get()) {
 		return false
 	}
 	let root = EIO_ROOT.lock().unwrap_or_else(|e| e.into_inner()).clone();
@@ -126,7 +142,7 @@ pub fn eio_path(path: &Path) -> bool {
 
 /// msync: by mapped address (needs a tracker started for the same root)
 pub fn eio_addr(addr: usize) -> bool {
-	if EIO_AFTER.load(Ordering::Relaxed) < 0 || IN_HOOK.with(|h| h.get()) {
+	if EIO_WRITES_ONLY.load(Ordering::Relaxed) || EIO_AFTER.load(Ordering::Relaxed) < 0 || IN_HOOK.with(|h| h.get()) {
 		return false
 	}
 	let mut hit = false;
